@@ -62,6 +62,43 @@ def dir_mutate(rng, data):
     return bytes(d), ','.join(what)
 
 
+def field_mutate(rng, data):
+    """one or two aligned 16- / 32-bit fields in the first part of a Graphite (or glyph-metrics) table set to a boundary value: counts and
+    offsets at, just past and far past what the table holds — the places where the parsers' bounds checks sit"""
+    d = bytearray(data)
+    n = struct.unpack('>H', d[4:6])[0]
+    tabs = {}
+    for i in range(n):
+        e = 12 + 16 * i
+        tabs[bytes(d[e:e + 4])] = struct.unpack('>II', d[e + 8:e + 16])
+    what = []
+    for _ in range(rng.choice((1, 1, 2))):
+        cands = [t for t in (b'Silf', b'Silf', b'Silf', b'Silf', b'Feat', b'Sill', b'name', b'Gloc', b'Glat', b'hhea', b'maxp', b'loca', b'hmtx', b'head') if t in tabs and tabs[t][1] >= 8]
+        if not cands:
+            break
+        t = rng.choice(cands)
+        off, ln = tabs[t]
+        if t == b'Silf' and rng.random() < 0.6 and ln > 40:
+            # inside the first subtable: its header, the pass-offset array, pseudo map and class map headers
+            try:
+                so = struct.unpack('>I', d[off + (12 if struct.unpack('>I', d[off:off + 4])[0] >= 0x00030000 else 8):][:4])[0]
+            except struct.error:
+                so = 0
+            lo, hi = (so if 0 < so < ln else 0), min(ln, (so if 0 < so < ln else 0) + 400)
+        else:
+            lo, hi = 0, min(ln, 160)
+        w = rng.choice((2, 2, 4))
+        if hi - lo < w:
+            continue
+        fo = lo + 2 * rng.randrange(0, (hi - lo - w) // 2 + 1)
+        v = int.from_bytes(d[off + fo:off + fo + w], 'big')
+        top = (1 << (8 * w)) - 1
+        nv = rng.choice((0, 1, v + 1, v - 1, v + 2, v * 2, v // 2, top, top >> 1, (top >> 1) + 1, ln, ln - 1, ln + 1, ln - fo, v + ln, 0x100, 0xFF)) & top
+        d[off + fo:off + fo + w] = nv.to_bytes(w, 'big')
+        what.append('%s+%d:u%d %d->%d' % (t.decode(), fo, 8 * w, v, nv))
+    return bytes(d), 'field ' + ' '.join(what)
+
+
 def run(chk):
     chk.trusted += ['hand models Model/SfntModel.v (file face), CmapModel.v, Lz4Model.v, VmModel.v (loader); the Silf / Pass / Glat / Gloc / Sill / name parsers are not modelled',
                     'ASan/UBSan/LSan runtime and the per-case watchdog as the oracle for what is not modelled', 'API harness harness/impl_api.cpp']
@@ -177,7 +214,9 @@ def run(chk):
     for k in range(9000 if thorough else 900):
         src = rng.choice(srcs)
         r = rng.random()
-        if r < 0.6:
+        if r < 0.3:
+            md, what = field_mutate(rng, datas[src])
+        elif r < 0.6:
             md, what = c02.mutate_font(rng, datas[src])
         elif r < 0.85:
             md, what = dir_mutate(rng, datas[src])
@@ -189,6 +228,31 @@ def run(chk):
         keep[p] = '%s: %s' % (src, what)
         for mode in (('cb', 'file') if k % 3 == 0 else (rng.choice(('cb', 'file')),)):
             cases.append('m%d api %s %d %s - %s' % (len(cases), p, rng.randrange(8), mode, QUERIES))
+    # class maps whose size is at the limit of their 16-bit offsets (Silf version 2 / 3): 4 + 2 * (numClasses + 1) no longer fits 16 bits from
+    # 32766 classes on; offsets written modulo 65536 by a naive compiler must not be taken at face value (F28)
+    from props import fontkit as K2
+    cbase = open(os.path.join(vlib.REPO, 'tests/fonts/general.ttf'), 'rb').read()
+    for k in range(40 if thorough else 10):
+        ncls = rng.choice((32764, 32765, 32766, 32766, 32767, 32768, 40000, 65534, 65535))
+        nlin = rng.choice((ncls, ncls, ncls - 1, 0))
+        ndata = rng.choice((0, 5, 5, 100, ncls, 2 * ncls))
+        true_off = 4 + 2 * (ncls + 1)
+        step = rng.choice((0, 2, 2))
+        offs = [(true_off + step * i) & 0xFFFF for i in range(ncls + 1)]
+        orig_table = K2.Classes.table
+        K2.Classes.table = lambda self, a=ncls, b=nlin, o=offs, d=ndata: struct.pack('>HH', a, b) + b''.join(struct.pack('>H', x) for x in o) + struct.pack('>H', 5) * d
+        try:
+            fontd = K2.build_font(cbase, [dict(maxloop=1, rules=[dict(pre=0, pat=[{5}], acts=[[('G', 5)]])])])
+        except (AssertionError, struct.error):
+            fontd = None
+        finally:
+            K2.Classes.table = orig_table
+        if fontd is None:
+            continue
+        p = os.path.join(tmp, 'cl%d.ttf' % k)
+        open(p, 'wb').write(fontd)
+        keep[p] = 'class map: %d classes (%d linear), %d data words, 16-bit offsets step %d written modulo 65536' % (ncls, nlin, ndata, step)
+        cases.append('cl%d api %s %d %s - info' % (len(cases), p, rng.choice((0, 2)), 'cb'))
     # compressed tables: the LZ4 block families of the C14 check (valid, mutated, boundary blocks at every guard), wrapped as a compressed
     # Silf (version 5) or Glat (version 3) table of a real font and loaded through the whole face constructor
     from props import c14, fontkit as K
@@ -330,7 +394,7 @@ def run(chk):
     chk.notes.append('load oracle: %s; %d historical crashers replayed' % (sorted(stats.items()), nhist))
     chk.cov.update(evaluations=len(scases) + len(cases) + len(pcases) + len(gcases), distinct_nontrivial=len(classes), disagreements_checked=ndis, distribution=dist,
                    rule='container: synthetic sfnt files (0..41 tables, offsets / lengths at, just past and far past the end, 32-bit extremes, wrong scaler, truncation anywhere, disagreeing table count) through FileFace '
-                        'and the model, table by table; oracle: %d historical single-byte crashers from tests/fuzz-tests plus byte-mutated (60%%), directory-mutated (25%%) and truncated (15%%) copies of the 16 shipped fonts x '
+                        'and the model, table by table; oracle: %d historical single-byte crashers from tests/fuzz-tests plus byte-mutated (30%%), field-mutated (30%%: aligned 16/32-bit fields of the Silf header and first subtable, Feat, Sill, name, Gloc, Glat, hhea, maxp, loca, hmtx, head set to boundary values), directory-mutated (25%%) and truncated (15%%) copies of the 16 shipped fonts x '
                         'option bits 0..7 x {callbacks, file}, plus the LZ4 block families of C14 wrapped as compressed Silf / Glat tables: make, all face / feature / label / feature-value queries, glyph lookups, destroy, LeakSanitizer; compiled GDL-lite fonts with field-level edits of one pass (16/32-bit header fields, body bytes, pass boundaries): loader verdict against the model of Pass::readPass; Gloc / Glat pairs (versions 1 / 2, short / long offsets, attribute-id arrays; valid, and damaged: odd block lengths, run counts claiming more values than the block holds, a block ending at the end of the table, decreasing / overshooting offsets, truncation, header limits, keys out of order) against Model/GlatModel.v: face verdict, per-glyph verdict and attribute values; non-trivial = distinct (source, options, mode, verdict)' % nhist,
                    samples=[scases[0][:200], cases[0][:200]], exhaustive=False)
 
